@@ -126,7 +126,7 @@ def observe(payload):
     res = []
     for case in payload['cases']:
         try:
-            res.append(observe_case(case))
+            res.append(observe_scale(case) if case.get('kind') == 'scale' else observe_case(case))
         except Exception as e:
             res.append({'crash': exn_name(e) + ': ' + str(e)[:300]})
     return {'cases': res}
@@ -154,3 +154,43 @@ def warm_up(obj, nodes, k=0):
                 g.is_ancestor_of(t, u)
             except Exception:
                 pass
+
+
+def observe_scale(case):
+    """a graph far beyond what the model evaluates in reasonable time (more than 65 535 edges on a few hundred nodes):
+    every query of every node compared with the closure computed here from the edge list - the property's own oracle"""
+    import random
+    rng = random.Random(case['seed'])
+    n = case['n']
+    ids = ['HP:%07d' % (i + 1) for i in range(n)]
+    order = list(range(n))
+    rng.shuffle(order)                         # a random topological order: edges go from later to earlier positions
+    pos = {v: k for k, v in enumerate(order)}
+    edges = [(a, b) for a in range(n) for b in range(n) if pos[a] > pos[b] and (pos[a] - pos[b] <= case['band'] or rng.random() < case['p'])]
+    root = order[0]
+    edges += [(a, root) for a in range(n) if a != root and not any(x == a for x, _ in edges)]
+    rng.shuffle(edges)
+    parents = {i: set() for i in range(n)}
+    children = {i: set() for i in range(n)}
+    for a, b in edges:
+        parents[a].add(b)
+        children[b].add(a)
+
+    def closure(rel, s):
+        seen, stack = set(), list(rel[s])
+        while stack:
+            x = stack.pop()
+            if x not in seen:
+                seen.add(x)
+                stack.extend(rel[x])
+        return seen
+    g = FACTORIES[case['factory']]().create_graph([(TermId.from_curie(ids[a]), TermId.from_curie(ids[b])) for a, b in edges])
+    bad = []
+    probe = rng.sample(range(n), min(n, case.get('probes', 60))) + [order[-1], order[0]]
+    for s in probe:
+        t = TermId.from_curie(ids[s])
+        for name, exp in (('get_parents', parents[s]), ('get_children', children[s]), ('get_ancestors', closure(parents, s)), ('get_descendants', closure(children, s))):
+            got = [x.value for x in getattr(g, name)(t)]
+            if sorted(got) != sorted(ids[x] for x in exp):
+                bad.append([name, ids[s], len(got), len(exp)])
+    return {'edges': len(edges), 'nodes': n, 'mismatches': bad[:10], 'n_mismatches': len(bad)}
